@@ -225,7 +225,9 @@ class WritableVersion(dns.zone.WritableVersion):
         if self.zone.relativize:
             return name == dns.name.empty
         else:
-            return name == self.zone.origin
+            # Use the version's origin: while a zone file that names its origin with
+            # $ORIGIN is being loaded, the zone's own origin is not set yet.
+            return name == self.origin
 
     def _maybe_cow_with_name(
         self, name: dns.name.Name
